@@ -900,7 +900,15 @@ class CIMInt(CIMType, int):
             args = list(*args)  # args is passed as a tuple
             args.append(kwargs.pop('x'))
 
-        value = int(*args, **kwargs)
+        try:
+            value = int(*args, **kwargs)
+        except OverflowError as exc:
+            # int() of an infinite float; this is a value that cannot be
+            # represented, just like an integer that is out of range
+            raise ValueError(
+                _format("Value {0!A} cannot be represented in CIM datatype "
+                        "{1}: {2}", args[0] if args else None, cls.cimtype,
+                        exc))
         if ENFORCE_INTEGER_RANGE:
             if value > cls.maxvalue or value < cls.minvalue:
                 raise ValueError(
